@@ -1157,8 +1157,10 @@ def regen_key(kind, feats, diffs):
             if f in feats:
                 return 'ncmpigen:content-differs:' + f
         return 'ncmpigen:content-differs:att'
+    if 'data:char' in cats and 'data-char-newline' in feats and all(k == 'numrecs' or k.startswith('data:') for k in cats):
+        return 'ncmpigen:content-differs:data-char-newline'   # the split row adds a row (a record variable grows)
     if cats == {'data:char'}:
-        for f in ('data-char-newline', 'data-char-octal-escape-then-digit', 'data-char-embedded-nul'):
+        for f in ('data-char-octal-escape-then-digit', 'data-char-embedded-nul'):
             if f in feats:
                 return 'ncmpigen:content-differs:' + f
         return 'ncmpigen:content-differs:char-data'
